@@ -163,7 +163,7 @@ def run(tier: str) -> int:
     nmax, pmax = (6, 2) if tier == "quick" else (7, 2)   # (7, 3) has millions of subset outputs: > 40 min
     chk.rule = (f"stage A/B: every valid sparse output with n <= {nmax} (change: all changepoint sets; anomaly: all "
                 f"sets of disjoint intervals; subset: n <= {nmax - 1}, p <= {pmax}, all non-empty column subsets) x "
-                "6 index types x 2 column labelings x {static converter, transform of a stub detector}; stage C: "
+                "8 index kinds (incl. Datetime/PeriodIndex with repeated values) x 2 column labelings x {static converter, transform of a stub detector}; stage C: "
                 "7 real detectors on lattice data with planted events.  Non-trivial = the output has adjacent "
                 "anomalies, an event touching 0 or n, or at least one changepoint; distinct by hash of (kind, n, p, y).")
     chk.assumptions = ["TLC/SANY and the Json module", "pandas index equality (`equals`) for the index comparison"]
